@@ -147,6 +147,7 @@ fn cmd_replay(args: &[String]) -> i32 {
             println!("debug: {:?}", o.debug);
             let mut p = inv::Props::from_list(&[prop]);
             p.c10_all = true;
+            p.continue_after_reject = true;
             let viols = inv::check_state(&p, &ops, &info, &o, false);
             for vi in &viols {
                 println!("REPRODUCED {} {}: {}", vi.prop, vi.sig, vi.msg);
